@@ -2466,6 +2466,7 @@ func newRepo(uuid dvid.UUID, v dvid.VersionID, id dvid.RepoID, passcode string) 
 // same branch (merges never move a head; a head may well have children on other branches).
 func (r *repoT) branchHeads() map[string]dvid.UUID {
 	branchToUUID := make(map[string]dvid.UUID)
+	headVersion := make(map[string]dvid.VersionID)
 	for _, node := range r.dag.nodes {
 		if len(node.parents) > 1 {
 			continue
@@ -2479,7 +2480,12 @@ func (r *repoT) branchHeads() map[string]dvid.UUID {
 			}
 		}
 		if head {
-			branchToUUID[node.branch] = node.uuid
+			// Merge children carry the master name, so a name can have several chains; the
+			// live server remembers the head created last, i.e. the one with the largest version id.
+			if prev, found := headVersion[node.branch]; !found || node.version > prev {
+				headVersion[node.branch] = node.version
+				branchToUUID[node.branch] = node.uuid
+			}
 		}
 	}
 	return branchToUUID
